@@ -2,7 +2,7 @@ import Upd.Frame
 /-! Requests that cannot disturb the referrers responses of a repository: everything except manifest pushes, manifest
     deletes and blob deletes.  `Quiet r s s'`: the index of `r` is the same, no blob of `r` disappeared, the response
     table, the body definitions and the configuration are the same.  (The walk mirrors `Upd/Frame.lean`.) -/
-namespace Upd
+namespace Upd.Rf
 
 structure Quiet (r : String) (s s' : State) : Prop where
   index : (s'.repo r).index = (s.repo r).index
@@ -262,4 +262,4 @@ theorem quiet_bDel_other (r : String) (s : State) (r0 arg : String) (h : r ≠ r
       · rw [resps_setRepo, resps_setRepo]
   have hother := hf.1 r h
   exact ⟨by rw [hother], fun g hg => by rw [hother]; exact hg, hresps, hf.2.2, hf.2.1⟩
-end Upd
+end Upd.Rf
